@@ -13,5 +13,7 @@ func init() {
 		emitFunc(g, "nestV2", findFunc(parseFile("pkg/cgroup/v2_linux.go"), "V2", "Nest"))
 		emitFunc(g, "newV2", findFunc(parseFile("pkg/cgroup/cgroup_linux.go"), "", "newV2"))
 		emitFunc(g, "openExistingV1", findFunc(parseFile("pkg/cgroup/cgroup_linux.go"), "", "openExistingV1"))
+		emitFunc(g, "copyFromParent", findFunc(parseFile("pkg/cgroup/v1_linux.go"), "", "copyCgroupPropertyFromParent"))
+		emitFunc(g, "initCpuset", findFunc(parseFile("pkg/cgroup/v1_linux.go"), "", "initCpuset"))
 	})
 }
